@@ -37,7 +37,7 @@ package jsonapi
 //@ spec sameFields(f []string) = forall j int :: 0 <= j && j < len(f) ==> f[j] == old(f[j])
 
 //@ func MarshalResource
-//@ props C04 C03 C11
+//@ props C04 C03 C11 C12
 //@ requires res: r != nil
 // The to-many id lists are sorted in place: the field selection and the
 // relationship-data lists must not share memory with the resource's id lists.
@@ -95,7 +95,7 @@ package jsonapi
 //@ spec colSep(c Collection, fields map[string][]string, relData map[string][]string) = forall i int, k string, t string :: 0 <= i && i < C_len($rh, c) && dyn(R_get($rh, C_at($rh, c, i), k)) == type[[]string] ==> (t in fields ==> sepSl(sl(R_get($rh, C_at($rh, c, i), k), type[[]string]), fields[t])) && (t in relData ==> sepSl(sl(R_get($rh, C_at($rh, c, i), k), type[[]string]), relData[t]))
 
 //@ func MarshalCollection
-//@ props C04 C03 C11
+//@ props C04 C03 C11 C12
 //@ requires col: c != nil
 //@ requires sep: colSep(c, fields, relData)
 //@ modifies heap[string], new[uint8], new[map[string]any], new[map[string]string], new[map[string]map[string]string], new[map[string]*json.RawMessage], new[json.RawMessage], new[*json.RawMessage], new[[]map[string]string], new[map[string]string], new[any]
@@ -125,11 +125,11 @@ package jsonapi
 //@ func MarshalDocument
 //@ flag absolute-quantifiers
 //@ flag maypanic
-//@ props C03 C04 C11
+//@ props C03 C04 C11 C12
 //@ requires args: doc != nil && url != nil && url.Params != nil && incOK(doc)
 //@ requires sep-data: doc.Data != nil && dyn(doc.Data) != type[Identifier] && dyn(doc.Data) != type[Identifiers] ==> resSep(doc.Data, url.Params.Fields, doc.RelData) && colSep(doc.Data, url.Params.Fields, doc.RelData)
 //@ requires sep-included: forall k int :: 0 <= k && k < len(doc.Included) ==> resSep(doc.Included[k], url.Params.Fields, doc.RelData)
-//@ modifies all
+//@ modifies heap[string], elems[Resource](doc.Included), map[map[string]Link](doc.Links), new[uint8], new[map[string]any], new[map[string]string], new[map[string]map[string]string], new[map[string]*json.RawMessage], new[json.RawMessage], new[*json.RawMessage], new[[]map[string]string], new[any], new[map[string]Link], new[Link], new[[]string], new[Resource]
 //@ assert after Slice#0 inc-ok: incOK(doc)
 //@ assert after Slice#0 inc-sep: forall k int :: 0 <= k && k < len(doc.Included) ==> resSep(doc.Included[k], url.Params.Fields, doc.RelData)
 //@ assert before Marshal#3 data-xor-errors: !("data" in plMap && "errors" in plMap)
@@ -172,3 +172,4 @@ package jsonapi
 //@ assert before MarshalResource#0 own-fields: $arg0 == doc.Data && $arg2 == listOf(url.Params.Fields, R_type($rh, $arg0).Name) && $arg3 == doc.RelData && $arg1 == doc.PrePath
 //@ assert before MarshalResource#1 own-fields: $arg2 == listOf(url.Params.Fields, R_type($rh, $arg0).Name) && $arg3 == doc.RelData && $arg1 == doc.PrePath
 //@ assert before MarshalCollection#0 all-fields: $arg0 == doc.Data && $arg2 == url.Params.Fields && $arg3 == doc.RelData && $arg1 == doc.PrePath
+//@ loop 0 invariant inclusions: (cap(inclusions) == 0 || fresh(inclusions)) && unchanged(heap[*json.RawMessage]) && incOK(doc) && doc == pre(doc)
